@@ -11,3 +11,4 @@ import FlodymProofs.Props.C19
 #print axioms Flodym.C19.exported_rows_read_back
 #print axioms Flodym.C19.defTables_flows
 #print axioms Flodym.C19.defTables_no_empty_kind
+#print axioms Flodym.C19.source_export_sites
